@@ -35,6 +35,11 @@ def run(ctx):
   from . import c16
   c16.rule_isolated(ctx, T.bodies(ctx.repo), "R-C03-OWN", lambda w: w.endswith(("CheckGCD.Check", "CheckGCDN1.Check")))
   ctx.expect("R-C03-OWN", 2, "CheckGCD and CheckGCDN1")
+  # "the recorded factor is that gcd", "flagged exactly when": the helpers the two checks record through - the entry looked up is the one with exactly the
+  # check's name (CheckGCD is a prefix of CheckGCDN1), an existing factor record is updated, factor sets are merged (shared with C16 / C01)
+  ctx.borrow(c16.rule_mono, "R-C03-RECORD", lambda r: r.construct in ("lookup-by-name", "attach-info"))
+  ctx.borrow(c01.rule_merge, "R-C03-RECORD")
+  ctx.expect("R-C03-RECORD", 4, "GetTestResult, GetAttachedInfo, AttachInfo, AttachFactors")
   ctx.expect("R-C03-EMPTY", 3, "CheckGCD, CheckGCDN1, BatchGCD")
   ctx.expect("R-C03-VERDICT", 4, "two predicates + two recorded values")
   ctx.expect("R-C03-TREE", 7, "seven obligations of the product tree")
